@@ -10,28 +10,81 @@ EXTENDS Collate, Derived
 
 CONSTANT Configs      \* sequence of [rows |-> dc, cols |-> dc] records
 
-VARIABLE ci           \* index of the configuration in force
+VARIABLE cfg          \* the configuration in force (a member of Configs; field idx = its
+                      \* 1-based position there, echoed to the replayer)
 
 NoOrder == [type |-> "payload", ids |-> << >>]
 DefaultDC == [vins |-> << >>, hasx |-> FALSE, xins |-> << >>, hide |-> {},
               prune |-> FALSE, order |-> NoOrder]
-DefaultConfig == [rows |-> DefaultDC, cols |-> DefaultDC]
+DefaultConfig == [idx |-> 1, rows |-> DefaultDC, cols |-> DefaultDC]
 
-Cfg  == Configs[ci]
+Cfg  == cfg
+ci   == cfg.idx
 RowDC == Cfg.rows
 ColDC == Cfg.cols
 
-vars == <<data, ci>>
-InitV == Init /\ ci \in 1..Len(Configs)
-NextV == Next /\ UNCHANGED ci
+vars == <<data, cfg>>
+InitV == Init /\ cfg \in {Configs[i] : i \in 1..Len(Configs)}
+NextV == Next /\ UNCHANGED cfg
 SpecV == InitV /\ [][NextV]_vars
 
 \* payload positions hidden by an explicit hide transform
 HiddenPos(d, dc) == {p \in ValidPos(d) : Dims[d].ids[p] \in dc.hide}
 
-RowOrder == IF ND >= 1 THEN AnchoredOrder(DimR, RowDC, HiddenPos(DimR, RowDC)) ELSE << >>
-ColOrder == IF ND >= 2 THEN AnchoredOrder(DimC, ColDC, HiddenPos(DimC, ColDC)) ELSE << >>
+(***************************************************************************)
+(* C09: emptiness is decided from UNWEIGHTED counts only.  A base vector   *)
+(* is empty when its unweighted pruning base is zero over every base       *)
+(* element of the opposing dimension.  The base is the vector's own-       *)
+(* direction base (members of the vector, valid on the opposing dimension) *)
+(* except that an MR vector counts selected and not-selected answers --    *)
+(* unless the opposing dimension is MR too, where only "selected" counts   *)
+(* (the library's documented deviation for MR x MR).                       *)
+(***************************************************************************)
+RowPruneModes ==
+  IF Kind(DimR) = "mr" /\ ND >= 2 /\ Kind(DimC) = "mr" THEN <<"sel", "own">>
+  ELSE IF Kind(DimR) = "mr" THEN <<"own", "sel">> ELSE <<"sel", "own">>
+ColPruneModes ==
+  IF Kind(DimC) = "mr" /\ Kind(DimR) = "mr" THEN <<"own", "sel">>
+  ELSE IF Kind(DimC) = "mr" THEN <<"sel", "own">> ELSE <<"own", "sel">>
 
-RE == IF ND >= 1 THEN ElsOf(DimR, RowDC, RowOrder) ELSE << >>
-CE == IF ND >= 2 THEN ElsOf(DimC, ColDC, ColOrder) ELSE << >>
+OppEls(d) == IF ND >= 2 THEN BaseEls(d) ELSE << NoEl >>
+
+EmptyRow(tk, p) ==
+  LET re == BaseEl(DimR, p)  C == OppEls(IF ND >= 2 THEN DimC ELSE DimR) IN
+  IF ND = 1
+  THEN Wt(Co(tk, re, NoEl), Md(IF Kind(DimR) = "mr" THEN "own" ELSE "sel", "sel"), "n") = 0
+  ELSE \A j \in 1..Len(C) :
+         Wt(Co(tk, re, C[j]), Md(RowPruneModes[1], RowPruneModes[2]), "n") = 0
+EmptyCol(tk, p) ==
+  LET ce == BaseEl(DimC, p)  RR == BaseEls(DimR) IN
+  \A i \in 1..Len(RR) :
+    Wt(Co(tk, RR[i], ce), Md(ColPruneModes[1], ColPruneModes[2]), "n") = 0
+
+EmptyRows(tk) == {p \in ValidPos(DimR) : EmptyRow(tk, p)}
+EmptyCols(tk) == IF ND >= 2 THEN {p \in ValidPos(DimC) : EmptyCol(tk, p)} ELSE {}
+
+RowHid(tk) == HiddenPos(DimR, RowDC) \cup (IF RowDC.prune THEN EmptyRows(tk) ELSE {})
+ColHid(tk) == IF ND >= 2
+              THEN HiddenPos(DimC, ColDC) \cup (IF ColDC.prune THEN EmptyCols(tk) ELSE {})
+              ELSE {}
+
+\* Subtotals are never pruned individually: all subtotals of a dimension disappear
+\* exactly when pruning is on for the OPPOSING dimension and every opposing base
+\* vector is empty.
+RowSubsPruned(tk) == ND >= 2 /\ ColDC.prune /\ EmptyCols(tk) = ValidPos(DimC)
+ColSubsPruned(tk) == ND >= 2 /\ RowDC.prune /\ EmptyRows(tk) = ValidPos(DimR)
+
+DropSubs(ord) == SelectSeq(ord, LAMBDA r : r > 0)
+
+RowOrder(tk) ==
+  IF ND = 0 THEN << >>
+  ELSE LET o == AnchoredOrder(DimR, RowDC, RowHid(tk)) IN
+       IF RowSubsPruned(tk) THEN DropSubs(o) ELSE o
+ColOrder(tk) ==
+  IF ND < 2 THEN << >>
+  ELSE LET o == AnchoredOrder(DimC, ColDC, ColHid(tk)) IN
+       IF ColSubsPruned(tk) THEN DropSubs(o) ELSE o
+
+RE(tk) == IF ND >= 1 THEN ElsOf(DimR, RowDC, RowOrder(tk)) ELSE << >>
+CE(tk) == IF ND >= 2 THEN ElsOf(DimC, ColDC, ColOrder(tk)) ELSE << >>
 =============================================================================
